@@ -16,7 +16,20 @@ import (
 
 type Option func(*cfg)
 
-type binaryHeader []byte
+// binaryHeader is an encoded object header along with the request it is
+// checked for: rules may filter by request X-headers as well.
+type binaryHeader struct {
+	hdr []byte
+	req *requestXHeaderSource
+}
+
+// GetXHeaders returns X-headers of the request the header is checked for.
+func (x binaryHeader) GetXHeaders() []eacl.Header {
+	if x.req == nil {
+		return nil
+	}
+	return x.req.GetXHeaders()
+}
 
 type cfg struct {
 	ctx          context.Context
@@ -122,7 +135,7 @@ func (h *cfg) readObjectHeaders(dst *headerSource) error {
 		panic(fmt.Sprintf("unexpected message type %T", h.msg))
 	case binaryHeader:
 		var err error
-		dst.objectHeaders, err = headersFromBinaryObjectHeader(m, h.cnr, h.obj)
+		dst.objectHeaders, err = headersFromBinaryObjectHeader(m.hdr, h.cnr, h.obj)
 		if err != nil {
 			return err
 		}
